@@ -13,6 +13,7 @@ if s.count(old)!=1: print("pattern occurs",s.count(old),"times; replacing first"
 open(f,'w').write(s.replace(old,new,1))
 PY
 [ $? -eq 0 ] || { git checkout -- .; exit 3; }
-cd /verif && ./check "$PROP" "$@" 2>&1 | grep -E "^\[|VIOLATION|UNDECIDED|DOWNGRADED|CRASH|KNOWN" | head -12
+cp -r /verif/evidence /tmp/evidence.bak.$$; cd /verif && ./check "$PROP" "$@" 2>&1 | grep -E "^\[|VIOLATION|UNDECIDED|DOWNGRADED|CRASH|KNOWN" | head -12
 echo "exit=$?"
 cd /repo && git checkout -- .
+rm -rf /verif/evidence && mv /tmp/evidence.bak.$$ /verif/evidence
